@@ -44,12 +44,40 @@ Definition same_obs (m : res) (i : obs) : bool :=
 (* FindEntry as the implementation answered it *)
 Definition impl_view (vw : list (path * hentry)) (p : path) : option hentry := aget path_eqb vw p.
 
+(* "the same content and attributes after any update made through any of them", beyond the mtime of
+   effect_ok: after a successful write through [p] the name shows only chunks the write brought and
+   the mode / owner / creation time it showed before; every other name that carried the same link id
+   before the write and still exists shows exactly the same entry (chunks and all attributes) *)
+Definition write_shown (s : st) (o : op) (i : obs) : bool :=
+  match o with
+  | Write p cs _ _ =>
+      is_err (i_err i) ||
+      match w_find s p, impl_view (i_view i) p with
+      | Some e0, Some e' =>
+          forallb (fun c => existsb (chunk_eqb c) cs) (h_chunks e') &&
+          (h_perm e' =? h_perm e0) && (h_uid e' =? h_uid e0) && (h_crtime e' =? h_crtime e0) &&
+          Bool.eqb (h_dir e') (h_dir e0) &&
+          match nfind s p with
+          | Some b0 =>
+              forallb (fun kv => negb (linked b0 (snd kv)) ||
+                                 match impl_view (i_view i) (fst kv) with
+                                 | Some eq => hentry_eqb eq e'
+                                 | None => false
+                                 end) (names s)
+          | None => false
+          end
+      | _, _ => false
+      end
+  | _ => true
+  end.
+
 (* the property oracle on the implementation's observables only: s = its state before the step *)
 Fixpoint oracle (s : st) (os : list op) (im : list obs) : bool :=
   match os, im with
   | [], [] => true
   | o :: os', i :: im' =>
-      c21_step_ok s o (i_err i) (i_state i) (impl_view (i_view i)) && oracle (i_state i) os' im'
+      c21_step_ok s o (i_err i) (i_state i) (impl_view (i_view i)) && write_shown s o i &&
+      oracle (i_state i) os' im'
   | _, _ => false
   end.
 
